@@ -28,6 +28,7 @@ structure Prog where
   runIgnored  : Bool := false
   color       : Bool := false
   rethrow     : Bool := false
+  separate    : Bool := false
   groupFilters : List Filter := []
   nameFilters  : List Filter := []
   plugins     : List Plugin := []              -- in op order; the chain is the reverse
@@ -51,7 +52,7 @@ def Prog.cfg (p : Prog) (clock : List Nat) : Cfg :=
   { exceptions := p.exc, rethrow := p.rethrow, verbose := p.verbosity % 2 == 1, veryVerbose := p.verbosity / 2 % 2 == 1,
     color := p.color, runIgnored := p.runIgnored,
     groupFilters := p.groupFilters, nameFilters := p.nameFilters,
-    stdExcMsg := stdExcText, otherExcMsg := otherExcText, clock := clock }
+    stdExcMsg := stdExcText, otherExcMsg := otherExcText, clock := clock, separate := p.separate }
 
 def clockOfObs (obs : List (List String)) : List Nat :=
   obs.filterMap fun l => match l with
@@ -160,13 +161,13 @@ def repOf (w : String) : Option (Option Nat) :=
     operation lines and the two environment lines of `cfg`) -/
 def applyOp (p : Prog) (op : List String) (obs : List (List String)) : Prog :=
   match op with
-  | ["cfg", rep, v, ri, col, rt] =>
+  | ["cfg", rep, v, ri, col, rt, sep] =>
     let exc := !(obs.any (· == ["variant", "noexc"]))
     let sites := obs.filterMap fun l => match l with
       | "sites" :: f :: rest => some (strOfHex f, rest.map (·.toNat?.getD 0))
       | _ => none
     { p with haveCfg := true, exc := exc, rep := repOf rep, verbosity := v.toNat?.getD 0, runIgnored := ri == "1",
-             color := col == "1", rethrow := rt == "1",
+             color := col == "1", rethrow := rt == "1", separate := sep == "1",
              siteFile := (sites.head?.map (·.1)).getD "", siteLines := (sites.head?.map (·.2)).getD [] }
   | ["filter", k, text] =>
     if k = "sg" then { p with groupFilters := ⟨text, false⟩ :: p.groupFilters }
@@ -211,6 +212,7 @@ def renderEv (color : Bool) : Ev → List String
   | .mark ph n d => [s!"mark {phaseName ph} {n} {d}"]
   | .plug name post d => [s!"plug {name} {if post then "post" else "pre"} {d}"]
   | .failure r => (failureToks r).map tokLine
+  | .sepFailure r => (failureToks r).map tokLine
   | .ended d c f => [s!"ended {d} {curName c} {if f then 1 else 0}"]
   | .summary r time => (summaryToks color r time).map tokLine
   | .ret v => [s!"ret {v}"]
@@ -235,7 +237,7 @@ def modelRun (p : Prog) (clock : List Nat) : List String :=
 def modelStep (p : Prog) (op : List String) (obs : List (List String)) : Prog × List String :=
   match op with
   | ["run"] => (p, modelRun p (clockOfObs obs))
-  | ["cfg", _, _, _, _, _] =>
+  | ["cfg", _, _, _, _, _, _] =>
     -- the two environment lines are inputs: echo them
     (applyOp p op obs, obs.filterMap fun l => match l with
       | "variant" :: _ => some (" ".intercalate l)
@@ -294,7 +296,7 @@ def judgeTest (cfg : Cfg) (chain : List Plugin) (t : Test) (seg : List Item) (e 
     Option String :=
   let wantEnters := (phasesRun cfg t).map phaseName
   let wantMarks := (testMarks cfg t).map fun (ph, n) => (phaseName ph, n)
-  let wantFails := (testFailures cfg chain t).map FailRec.printed
+  let wantFails := (testRecords cfg chain t).map FailRec.printed
   let gotFails := scanFailures (toksOfItems seg)
   let who := s!"{formattedName cfg t}"
   if willRun cfg t then
@@ -303,10 +305,10 @@ def judgeTest (cfg : Cfg) (chain : List Plugin) (t : Test) (seg : List Item) (e 
     else if marksOfItems seg != wantMarks then
       some s!"{who}: statements executed {showList ((marksOfItems seg).map fun (p, n) => s!"{p}:{n}")}, the property demands {showList (wantMarks.map fun (p, n) => s!"{p}:{n}")} (nothing after a failing check or escaping exception)"
     else if gotFails != wantFails then
-      some s!"{who}: printed failure records {showList (gotFails.map showPrinted)}, failing events are {showList (wantFails.map showPrinted)} (each exactly once, in order, with its own file:line)"
+      some s!"{who}: printed failure records {showList (gotFails.map showPrinted)}, failing events are {showList (wantFails.map showPrinted)} (each exactly once, in order, with its own file:line{if cfg.separate then "; with -p one more record 'Failed in separate process' for a child that recorded any failure" else ""})"
     else if e.1 != 0 then some s!"{who}: jump-buffer depth after the test is {e.1}, before it was 0"
     else if e.2.1 != "-" then some s!"{who}: current test after the test is {e.2.1}, not restored"
-    else if e.2.2 != !(testPhaseFailures cfg t).isEmpty then
+    else if !cfg.separate && e.2.2 != !(testPhaseFailures cfg t).isEmpty then
       some s!"{who}: per-test failed flag is {e.2.2}, the test {if (testPhaseFailures cfg t).isEmpty then "did not fail" else "failed"}"
     else none
   else
